@@ -111,6 +111,17 @@ theorem clusterKey_mono {u v : Int} (hv : v ∈ vals) (h : u ≤ v) :
   have := clusterKey_le_near (A := A) (u := u) hcv hnear
   omega
 
+/-- the cluster key depends on the occurring values only as a set -/
+theorem clusterKey_congr {A : Nat} {vals1 vals2 : List Int} (h : ∀ w, w ∈ vals1 ↔ w ∈ vals2) {u : Int} :
+    clusterKey A vals1 u = clusterKey A vals2 u := by
+  have key : ∀ v1 v2 : List Int, (∀ w, w ∈ v1 → w ∈ v2) → clusterKey A v2 u ≤ clusterKey A v1 u := by
+    intro v1 v2 hsub
+    rcases foldl_min_mem (v1.filter fun w => decide ((w - u).natAbs ≤ A)) u with h1 | h1
+    · unfold clusterKey at *; rw [h1]; exact foldl_min_le _ _
+    · have hm := List.mem_filter.mp h1
+      exact foldl_min_le_mem _ _ _ (List.mem_filter.mpr ⟨hsub _ hm.1, hm.2⟩)
+  exact le_antisymm (key vals2 vals1 (fun w hw => (h w).mpr hw)) (key vals1 vals2 (fun w hw => (h w).mp hw))
+
 /-- `Sep` makes every closeness test that agrees with the dichotomy a clustered relation -/
 theorem clustered_of_sep (close : Int → Int → Bool) (hsep : sepCol A B vals = true) (hAB : 2 * A ≤ B)
     (hlow : ∀ u ∈ vals, ∀ v ∈ vals, (u - v).natAbs ≤ A → close u v = true)
